@@ -4,6 +4,7 @@ pub mod c02;
 pub mod c03;
 pub mod c04;
 pub mod c13;
+pub mod c15;
 pub mod common;
 
 pub fn run(id: &str, tier: Tier, seed: u64) -> i32 {
@@ -13,6 +14,7 @@ pub fn run(id: &str, tier: Tier, seed: u64) -> i32 {
         "C03" => c03::run(tier, seed),
         "C04" => c04::run(tier, seed),
         "C13" => c13::run(tier, seed),
+        "C15" => c15::run(tier, seed),
         _ => {
             eprintln!("no check for {}", id);
             2
@@ -27,6 +29,7 @@ pub fn replay(id: &str, case: &serde_json::Value) -> CaseResult {
         "C03" => c03::replay(case),
         "C04" => c04::replay(case),
         "C13" => c13::replay(case),
+        "C15" => c15::replay(case),
         _ => panic!("no check for {}", id),
     }
 }
